@@ -1,0 +1,21 @@
+//go:build verif
+
+// Contracts for the exovc verifier (/verif). Comment-only: with the tag off this file is not part
+// of the package, with the tag on it declares nothing.
+package cache
+
+// The in-memory cache of the oracle module (validator powers, parameters, messages of the block) lives in Go maps
+// and slices behind a process-wide pointer; its contents are outside the memory model. What callers rely on is the
+// ORDER of writes and reads, which the ghost counter `cacheAdds` (number of AddCache calls) makes expressible.
+// Assumed, by inspection of caches.go: AddCache, GetCache and CommitCache touch the cache only (CommitCache also the
+// store of its context, through the keeper).
+//@ func (*Cache).AddCache
+//@   flag assumed
+//@   bumps cacheAdds by 1
+
+//@ func (*Cache).GetCache
+//@   flag assumed
+
+//@ func (*Cache).CommitCache
+//@   flag assumed
+//@   modifies state(ctx), trace
